@@ -312,6 +312,66 @@ fn future_parts(ret: &syn::ReturnType) -> Value {
     Value::Null
 }
 
+/// syntactic shape of a (first-parameter) type, in the vocabulary of spec/Sig.tla: reference / parenthesis layers around a base
+fn ty_shape(ty: &syn::Type, sig: &syn::Signature) -> Value {
+    let mut wrap: Vec<&'static str> = vec![];
+    let mut cur = ty;
+    loop {
+        match cur {
+            syn::Type::Reference(r) => {
+                wrap.push(if r.lifetime.is_some() { "reflife" } else { "ref" });
+                cur = r.elem.as_ref();
+            }
+            syn::Type::Paren(p) => {
+                wrap.push("paren");
+                cur = p.elem.as_ref();
+            }
+            _ => break,
+        }
+    }
+    let type_params: Vec<String> = sig.generics.params.iter().filter_map(|p| match p {
+        syn::GenericParam::Type(t) => Some(t.ident.to_string()),
+        _ => None,
+    }).collect();
+    let mut nbounds = 0usize;
+    let base = match cur {
+        syn::Type::ImplTrait(i) => { nbounds = i.bounds.len(); "impl" }
+        syn::Type::Path(tp) => {
+            if tp.qself.is_some() { "qself" }
+            else if tp.path.leading_colon.is_some() { "colon" }
+            else if tp.path.segments.len() != 1 { "path" }
+            else {
+                let seg = tp.path.segments.first().unwrap();
+                let name = seg.ident.to_string();
+                if type_params.contains(&name) {
+                    // bounds of the named parameter: inline + where-predicates on the bare name
+                    for p in &sig.generics.params {
+                        if let syn::GenericParam::Type(t) = p { if t.ident == name.as_str() { nbounds += t.bounds.len(); } }
+                    }
+                    if let Some(w) = &sig.generics.where_clause {
+                        for pred in &w.predicates {
+                            if let syn::WherePredicate::Type(pt) = pred {
+                                if let syn::Type::Path(bp) = &pt.bounded_ty {
+                                    if bp.qself.is_none() && bp.path.leading_colon.is_none() && bp.path.segments.len() == 1
+                                        && bp.path.segments.first().unwrap().ident == name.as_str() {
+                                        nbounds += pt.bounds.len();
+                                    }
+                                }
+                            }
+                        }
+                    }
+                    "generic"
+                } else if matches!(seg.arguments, syn::PathArguments::None) { "ident" } else { "inst" }
+            }
+        }
+        syn::Type::Tuple(t) => if t.elems.is_empty() { "unit" } else { "tuple" },
+        syn::Type::Array(_) => "array",
+        syn::Type::TraitObject(_) => "dyn",
+        _ => "other",
+    };
+    json!({"wrap": wrap, "base": base, "nbounds": nbounds, "basetext": s(cur).replace(' ', "")})
+}
+
 fn sig_json(sig: &syn::Signature) -> Value {
     let mut recv = json!({"kind": "none"});
     let mut params = vec![];
@@ -355,6 +415,11 @@ fn sig_json(sig: &syn::Signature) -> Value {
         "variadic": sig.variadic.is_some(),
         "ret": match &sig.output { syn::ReturnType::Default => String::new(), syn::ReturnType::Type(_, t) => s(t) },
         "fut": future_parts(&sig.output),
+        "first": match sig.inputs.first() {
+            None => json!({"wrap": [], "base": "none", "nbounds": 0}),
+            Some(syn::FnArg::Receiver(r)) => json!({"wrap": if r.reference.is_some() { vec!["ref"] } else { vec![] }, "base": "self", "nbounds": 0}),
+            Some(syn::FnArg::Typed(pt)) => ty_shape(&pt.ty, sig),
+        },
         "text": s(sig),
     })
 }
